@@ -21,6 +21,11 @@ SHAPES = [
     ("struct-field", "{c}St {n}{i};", "{n}.f", " = {1, 2}"),
     ("array-of-struct-field", "{c}St {n}[2]{i};", "{n}[1].g", " = {{1, 2}, {3, 4}}"),
     ("matrix-element", "{c}int {n}[2][2]{i};", "{n}[1][0]", " = {{1, 2}, {3, 4}}"),
+    # record types written out in place (the prefix stands in front of `struct`, not in front of a type name)
+    ("anonymous-struct-field", "{c}struct {{ int f; int a[2]; }} {n}{i};", "{n}.f", " = {1, {2, 3}}"),
+    ("anonymous-struct-array-field", "{c}struct {{ int f; int a[2]; }} {n}{i};", "{n}.a[1]", " = {1, {2, 3}}"),
+    ("array-of-anonymous-struct", "{c}struct {{ int f; int g; }} {n}[2]{i};", "{n}[1].g", " = {{1, 2}, {3, 4}}"),
+    ("anonymous-struct-in-anonymous-struct", "{c}struct {{ struct {{ int f; }} in; int g; }} {n}{i};", "{n}.in.f", " = {{1}, 2}"),
     # initialisers and sizes with quantifiers in them (the declared type is decided after the initialiser has been parsed)
     ("int-sum-initialiser", "{c}int {n}{i};", "{n}", " = sum (qi : int[0,2]) qi"),
     ("int-forall-initialiser", "{c}int {n}{i};", "{n}", " = (forall (qi : int[0,1]) qi >= 0) ? 1 : 2"),
